@@ -11,7 +11,7 @@ from penman.tree import Tree
 from pv.gen import graphs, models, trees
 from pv.gen.base import fy
 from pv.harness import Enum, Fuzz, Hyp
-from pv.props.common import fmt, noise_calls, short, tree_classes
+from pv.props.common import fmt, model_arg, noise_calls, short, tree_classes
 from pv.ref import graphm, interp
 from pv.ref.role import build_model
 
@@ -35,6 +35,7 @@ def _check_graph(g, spec, m, label, ntops=None):
     vs = sorted(g.variables(), key=repr)
     if ntops and len(vs) > ntops:
         vs = [g.top] + [vs[(i * len(vs)) // ntops] for i in range(ntops)]
+    m = model_arg(m, spec, len(vs))
     codec = penman.PENMANCodec(model=m)
     for k, v in enumerate(vs):
         try:
